@@ -363,6 +363,9 @@ func TestC12(t *testing.T) {
 
 // ---- C18 ------------------------------------------------------------------------------------------------------
 
+// c18DeadCodeSkipped counts the programs on which the containment law was not judged (recorded finding).
+var c18DeadCodeSkipped int
+
 func c18Judge(files map[string]string, d dynCalls) (string, int, error) {
 	l, err := core.LoadSource(files)
 	if err != nil {
@@ -432,7 +435,22 @@ func c18Judge(files map[string]string, d dynCalls) (string, int, error) {
 		}
 		// (b) pointer-analysis call graph reachability is contained
 		st2, err := dataflow.NewInitializedAnalyzerState(l.Prog, nil, config.NewLogGroup(cfg), cfg)
-		if err == nil && st2.PointerAnalysis != nil {
+		// Recorded finding (cg-reachable-through-dead-code): the pointer analysis also analyses functions that are not
+		// reachable, so objects created only by dead code reach call sites of live code and add call-graph edges; the
+		// reachability tool, which only follows live code, does not report their targets. With the finding recorded, the
+		// containment law is judged only on programs without dead code (every function with a body is reported).
+		deadCode := false
+		if excluded()["dead-code-cg"] && !replaying {
+			for f := range all {
+				if f != nil && f.Synthetic == "" && f.Pkg != nil && f.Pkg.Pkg.Name() == "main" && len(f.Blocks) > 0 && !full[f] {
+					deadCode = true
+				}
+			}
+			if deadCode {
+				c18DeadCodeSkipped++
+			}
+		}
+		if err == nil && st2.PointerAnalysis != nil && !deadCode {
 			for f := range dataflow.CallGraphReachable(st2.PointerAnalysis.CallGraph, false, false) {
 				if f == nil || f.Synthetic != "" || f.Pkg == nil {
 					continue
@@ -494,9 +512,14 @@ func TestC18(t *testing.T) {
 		gen: func(t *rapid.T) *flowCase { return genFlowCase(t, gogen.DispatchProfile(off), nv) },
 		judge: func(rt *rapid.T, c *flowCase, res *native.Result) {
 			d := dynamicCalls(res)
+			skippedBefore := c18DeadCodeSkipped
 			msg, nso, err := c18Judge(c.files(), d)
 			if err != nil {
 				rt.Fatalf("HARNESS: %v", err)
+			}
+			if c18DeadCodeSkipped > skippedBefore {
+				rec.Count("excluded_by_known_finding", 1)
+				rec.Count("containment_law_not_judged_dead_code", 1)
 			}
 			rec.Case(c.Key, nso >= 1, dispatchLabels(c.Prog), func() any {
 				return map[string]any{"program_from_first_function": core.Truncate(afterDecls(c.Prog.Main), 50), "entered_functions": len(d.entered),
@@ -526,6 +549,8 @@ func dynReplayRes(dir string, judge func(files map[string]string, res *native.Re
 
 // dynReplayOpt re-runs a stored program natively (rounds times, results accumulated) and re-judges it.
 func dynReplayOpt(dir string, opt native.Options, gomaxprocs []int, rounds int, judge func(files map[string]string, res *native.Result) string) string {
+	replaying = true
+	defer func() { replaying = false }()
 	main, err := os.ReadFile(filepath.Join(dir, "main.go"))
 	if err != nil {
 		return "HARNESS cannot read main.go"
